@@ -104,6 +104,7 @@ type Env struct {
 	Crafted bool         // built by the adversary, not by an engine
 	Cert    *lib.QuorumCertificate
 	SentAt  int // sim step
+	Timing  int // suffix only: -1 = arrives at once, +1 = arrives after the full delta, 0 = generated latency
 }
 
 // CommitRec is one commit of one replica.
@@ -393,6 +394,10 @@ func (s *Sim) FireTimer(i int) []*Env {
 		}
 		if r.Committed != nil {
 			eff = "+COMMIT:" + short(r.Committed.BlockHash)
+		} else if r.Byz {
+			// a Byzantine validator does not leave the height because its engine saw a COMMIT: it moves on to the next round
+			r.B.Phase = Pacemaker
+			eff = "+byz-stays"
 		} else {
 			r.Stuck = true
 			eff = "+gate-refused"
@@ -754,6 +759,17 @@ func (s *Sim) CraftVote(i int, qc *lib.QuorumCertificate, highQc *lib.QuorumCert
 	return s.add(i, to, m, true)
 }
 
+// CraftVoteBuild is CraftVote with a chosen RcBuildHeight (the field is not covered by the vote's signature bytes).
+func (s *Sim) CraftVoteBuild(i int, qc *lib.QuorumCertificate, highQc *lib.QuorumCertificate, rcBuild uint64, to []int) *Env {
+	s.mustByz(i)
+	m := &bft.Message{Qc: cloneQC(qc), HighQc: cloneQC(highQc), RcBuildHeight: rcBuild}
+	m.Qc.Signature = nil
+	if err := m.Sign(s.R[i].Key); err != nil {
+		panic(err)
+	}
+	return s.add(i, to, m, true)
+}
+
 // CraftPacemaker signs a pacemaker (round-interrupt view) message with Byzantine key i.
 func (s *Sim) CraftPacemaker(i int, root, round uint64, to []int) *Env {
 	s.mustByz(i)
@@ -857,23 +873,32 @@ func (s *Sim) MakeBlock(proposer int, tag string) (blk []byte, hash []byte) {
 	return bz, h.Hash
 }
 
-// MakeResults builds well-formed certificate results.
-func (s *Sim) MakeResults(proposer int, slash []*lib.DoubleSigner) *lib.CertificateResult {
+// LotteryAddr models the part of the certificate results that is a function of the root-chain height the block was
+// built at (the real controller asks the root chain at rcBuildHeight for the lottery winner, orders and the DEX batch).
+func LotteryAddr(rcBuild uint64) []byte {
+	return crypto.Hash([]byte(fmt.Sprintf("lottery-winner@root%d", rcBuild)))[:20]
+}
+
+// MakeResults builds well-formed certificate results for a block built at root height rcBuild.
+func (s *Sim) MakeResults(proposer int, slash []*lib.DoubleSigner, rcBuild uint64) *lib.CertificateResult {
 	return &lib.CertificateResult{
-		RewardRecipients: &lib.RewardRecipients{PaymentPercents: []*lib.PaymentPercents{{Address: s.R[proposer].Key.PublicKey().Address().Bytes(), ChainId: ChainID, Percent: 100}}},
-		SlashRecipients:  &lib.SlashRecipients{DoubleSigners: slash},
+		RewardRecipients: &lib.RewardRecipients{PaymentPercents: []*lib.PaymentPercents{
+			{Address: s.R[proposer].Key.PublicKey().Address().Bytes(), ChainId: ChainID, Percent: 90},
+			{Address: LotteryAddr(rcBuild), ChainId: ChainID, Percent: 10}}},
+		SlashRecipients: &lib.SlashRecipients{DoubleSigners: slash},
 	}
 }
 
 // MakeResultsVar builds well-formed certificate results that differ from MakeResults (and from each other per tag):
 // the reward is split between the proposer and a tag-derived address.
-func (s *Sim) MakeResultsVar(proposer int, tag string) *lib.CertificateResult {
+func (s *Sim) MakeResultsVar(proposer int, tag string, rcBuild uint64) *lib.CertificateResult {
 	other := crypto.Hash([]byte("results/" + tag))[:20]
 	share := uint64(1 + int(other[0])%40)
 	return &lib.CertificateResult{
 		RewardRecipients: &lib.RewardRecipients{PaymentPercents: []*lib.PaymentPercents{
-			{Address: s.R[proposer].Key.PublicKey().Address().Bytes(), ChainId: ChainID, Percent: 100 - share},
-			{Address: other, ChainId: ChainID, Percent: share}}},
+			{Address: s.R[proposer].Key.PublicKey().Address().Bytes(), ChainId: ChainID, Percent: 90 - share},
+			{Address: other, ChainId: ChainID, Percent: share},
+			{Address: LotteryAddr(rcBuild), ChainId: ChainID, Percent: 10}}},
 		SlashRecipients: &lib.SlashRecipients{},
 	}
 }
@@ -918,7 +943,7 @@ func (c *ctl) ProduceProposal(be *bft.ByzantineEvidence, _ *crypto.VDF) (uint64,
 			ds = got
 		}
 	}
-	return c.rootH, blk, s.MakeResults(c.i, ds), nil
+	return c.rootH, blk, s.MakeResults(c.i, ds, c.rootH), nil
 }
 
 func (c *ctl) ValidateProposal(rcBuildHeight uint64, qc *lib.QuorumCertificate, evidence *bft.ByzantineEvidence) (*lib.BlockResult, lib.ErrorI) {
@@ -931,6 +956,15 @@ func (c *ctl) ValidateProposal(rcBuildHeight uint64, qc *lib.QuorumCertificate, 
 	}
 	if err = c.r().B.ValidateByzantineEvidence(qc.Results.SlashRecipients, evidence); err != nil {
 		return nil, err
+	}
+	// Controller.ValidateProposal recomputes the results from the block, the evidence and the root-chain data AT rcBuildHeight and
+	// demands equality: the part that depends on the build height must be the one of exactly this build height
+	lottery := false
+	for _, pp := range qc.Results.RewardRecipients.PaymentPercents {
+		lottery = lottery || bytes.Equal(pp.Address, LotteryAddr(rcBuildHeight))
+	}
+	if !lottery {
+		return nil, lib.ErrMismatchEvidenceAndHeader()
 	}
 	// Controller.ValidateProposal recomputes the results and demands equality (here: the slash list)
 	var want []*lib.DoubleSigner
@@ -990,7 +1024,7 @@ func (c *ctl) receiveCert(qc *lib.QuorumCertificate, via string) bool {
 		return false
 	}
 	r := c.r()
-	if r.Committed != nil {
+	if r.Committed != nil || r.Byz {
 		return false
 	}
 	if via == "gossip" {
